@@ -48,101 +48,83 @@ fn initial_links() -> Vec<(&'static str, &'static str)> {
 }
 const FIFO: &str = "fifo";
 
+/// Every kind of command the generator knows, instantiated for item number k.
+fn variants(rng: &mut Rng, k: u32) -> Vec<(&'static str, String)> {
+    let f = |rng: &mut Rng| rng.pick(&["f1", "f2", "e1", "d/x", "e2.txt"]).to_string();
+    let fd = rng.range(3, 5);
+    let big: String = (0..400).map(|i| format!("line {i} of the here-document {k}\n")).collect();
+    vec![
+        ("redir-write", format!("echo w{k} >{}", f(rng))),
+        ("redir-write", format!("echo w{k} >{}; echo v{k} >{}", f(rng), f(rng))),
+        ("redir-append", format!("echo w{k} >>{}", f(rng))),
+        ("redir-clobber", format!("echo w{k} >|{}", f(rng))),
+        ("noclobber", if rng.bool() { "set -C".into() } else { "set +C".into() }),
+        ("cat", format!("cat {}; echo \"?=$?\"", rng.pick(&["e1", "f1", "f2", "d/a.txt", "d/x"]))),
+        ("glob", format!("echo {}", rng.pick(&["*", "d/*", "*.txt", "f?", "nomatch*", "d/*/*", "e*", "[de]*", "d/s*/"]))),
+        ("symlink-dir-prefix", format!("echo {}", rng.pick(&["*/", "*/*"]))),
+        ("exec-fd", format!("exec 3>{}; echo w{k} >&3; echo v{k} >&3; exec 3>&-", rng.pick(&["f1", "f2"]))),
+        ("closed-fd", format!("echo w{k} >&7; echo \"?=$?\"")),
+        ("read-file", "read a b <e1; echo \"[$a][$b] ?=$?\"".to_string()),
+        ("pipeline", format!("echo w{k} | relay 3 | cat; echo \"?=$?\"")),
+        ("cmdsubst", "v=$(cat e1; rc 3); echo \"$v ?=$?\"".to_string()),
+        ("subshell-cd", format!("( cd d; echo *; echo w{k} >sub_f{k} ); echo \"?=$?\"; echo d/*")),
+        ("cd", "cd d; echo *; cd ..; echo \"?=$?\"".to_string()),
+        ("cd-missing", "cd nodir; echo \"?=$?\"".to_string()),
+        ("async-wait", format!("{{ echo w{k} >f3; exit 3; }} & wait $!; echo \"?=$?\"; cat f3")),
+        ("trap-self-signal", format!("trap 'echo trapped{k}' USR1; kill -s USR1 $$; echo after{k}; trap - USR1")),
+        ("kill-child", "{ nap 200; echo never >nf; } & p=$!; kill -s TERM $p; wait $p; echo \"?=$?\"".to_string()),
+        ("umask", format!("umask {}; echo w{k} >m{k}; umask 022", rng.pick(&["027", "077", "002"]))),
+        ("dir-as-file", format!("echo w{k} >d; echo \"?=$?\"")),
+        ("missing-input", "cat <missing; echo \"?=$?\"".to_string()),
+        ("here-doc", format!("cat <<EOF\nh{k} $HOME_NOT_SET\nEOF")),
+        ("rw-open", format!("echo w{k} 1<>{}", rng.pick(&["f1", "e1"]))),
+        ("dup", format!("echo w{k} 2>&1 >f2; echo x{k} >&2 2>>f2")),
+        ("status", format!("rc {}; echo \"?=$?\"", rng.pick(&[0u8, 1, 7]))),
+        ("creat-in-missing-dir", format!("echo w{k} >nodir/f; echo \"?=$?\"")),
+        ("file-as-dir", format!("echo w{k} >e1/f; echo \"?=$?\"; cat e1/f; echo \"?=$?\"")),
+        ("cd-to-file", "cd e1; echo \"?=$?\"".to_string()),
+        ("read-directory", "cat d; echo \"?=$?\"".to_string()),
+        ("read-directory", "read x <d; echo \"?=$?\"".to_string()),
+        ("wait-unknown", "wait 99999; echo \"?=$?\"; wait; echo \"?=$?\"".to_string()),
+        ("append-shared-offset", format!("exec 3>>f1; echo a{k} >&3; echo b{k} >f1; echo c{k} >&3; exec 3>&-; cat f1")),
+        ("truncate-under-open-fd", format!("exec 3>f2; echo aaaa{k} >&3; : >f2; echo b{k} >&3; exec 3>&-; cat f2 | relay 64 | sink 0 0")),
+        ("truncate-under-open-fd", format!("{{ echo hello{k}; : >f1; echo x{k}; }} >f1; cat f1 | sink 0 0")),
+        ("hidden-glob", "echo .*; echo .h*; echo d/.*".to_string()),
+        ("symlink-open", "cat lnk; echo \"?=$?\"".to_string()),
+        ("symlink-dir-prefix", "echo dlnk/*; cat dlnk/a.txt; echo \"?=$?\"".to_string()),
+        ("symlink-open", "cat broken; echo \"?=$?\"".to_string()),
+        ("symlink-open", format!("echo w{k} >lnk; cat e1")),
+        ("symlink-dir-prefix", "cd dlnk; echo *; cd ..".to_string()),
+        ("symlink-open", format!("echo w{k} >broken; echo \"?=$?\"; echo *")),
+        ("shared-offset-read", "exec 3<e1; read a <&3; ( read c <&3; echo \"child $c\" ); read b <&3; echo \"[$a][$b] ?=$?\"; exec 3<&-".to_string()),
+        ("read-empty-stdin", "read x; echo \"?=$? [$x]\"".to_string()),
+        ("closed-stdout", format!("echo w{k} >&-; echo \"?=$?\"")),
+        ("closed-stdin", "exec 0<&-; read x; echo \"?=$?\"".to_string()),
+        ("ignore-signal", "trap '' TERM; kill -s TERM $$; echo alive; trap - TERM".to_string()),
+        ("pipeline-status", "{ exit 7; } | { exit 9; }; echo \"?=$?\"; ! rc 3; echo \"?=$?\"".to_string()),
+        ("pipefail", "set -o pipefail; { exit 7; } | rc 0; echo \"?=$?\"; set +o pipefail".to_string()),
+        ("big-here-doc", format!("sink 0 0 <<'EOF'\n{big}EOF")),
+        ("big-pipe", format!("gen 70000 {k} 4096 0 0 | relay 1000 | sink {k} 0 333")),
+        ("kill-reaped", "{ exit 0; } & p=$!; wait $p; kill -s TERM $p; echo \"?=$?\"".to_string()),
+        ("fifo", format!("{{ echo w{k} >fifo; }} & cat fifo; wait; echo \"?=$?\"")),
+        ("rw-no-truncate", "cat <>e1; echo z 1<>e1; cat e1".to_string()),
+        ("exit-trap", format!("( trap 'echo bye{k}' EXIT; echo in; exit 4 ); echo \"?=$?\"")),
+        ("exec-heredoc-fd", format!("exec {fd}<<EOF\nhd{k} one\nhd{k} two\nEOF\nread x <&{fd}; echo \"[$x] ?=$?\"; cat <&{fd}; exec {fd}<&-; echo \"?=$?\"")),
+        ("exec-heredoc-fd", format!("exec 3<<EOF\nlow{k}\nEOF\nread x <&3; echo \"[$x] ?=$?\"; exec 3<&-; echo \"?=$?\"")),
+        ("exec-read-fd", format!("exec {fd}<e1; read y <&{fd}; echo \"[$y]\"; exec {fd}<&-")),
+        ("exec-persist", format!("exec >f1; echo hidden{k}; exec >&2; echo \"?=$?\" >&2 2>/dev/null")),
+        ("dup-close-combo", format!("echo w{k} 3>f2 >&3 3>&-; cat f2")),
+        ("function-redir", format!("fn{k}() {{ echo in{k}; echo err{k} >&2; }}; fn{k} >f1 2>f2; cat f1 f2")),
+        ("compound-redir", format!("for i in 1 2; do echo i$i; done >f1; while read l; do echo \"l=$l\"; done <f1")),
+        ("signal-exit-status", "( kill -s KILL $(exec 3>&1; ( mypid >&3 ) ) ) 2>/dev/null; echo done".to_string()),
+    ]
+}
+
 fn gen_item(rng: &mut Rng, w: &mut u32, feats: &mut Vec<String>) -> (String, String) {
     *w += 1;
-    let k = *w;
-    let f = |rng: &mut Rng| rng.pick(&["f1", "f2", "e1", "d/x", "e2.txt"]).to_string();
-    let (feat, line): (&str, String) = match rng.below(30) {
-        0..=2 => ("redir-write", format!("echo w{k} >{}", f(rng))),
-        3..=4 => ("redir-append", format!("echo w{k} >>{}", f(rng))),
-        5 => ("redir-clobber", format!("echo w{k} >|{}", f(rng))),
-        6 => ("noclobber", if rng.bool() { "set -C".into() } else { "set +C".into() }),
-        7..=8 => ("cat", format!("cat {}; echo \"?=$?\"", rng.pick(&["e1", "f1", "f2", "d/a.txt", "d/x"]))),
-        9..=10 => match rng.below(9) {
-            0 => ("symlink-dir-prefix", "echo */".to_string()),
-            1 => ("symlink-dir-prefix", "echo */*".to_string()),
-            _ => (
-                "glob",
-                format!("echo {}", rng.pick(&["*", "d/*", "*.txt", "f?", "nomatch*", "d/*/*", "e*", "[de]*", "d/s*/"])),
-            ),
-        },
-        11 => (
-            "exec-fd",
-            format!("exec 3>{}; echo w{k} >&3; echo v{k} >&3; exec 3>&-", rng.pick(&["f1", "f2"])),
-        ),
-        12 => ("closed-fd", format!("echo w{k} >&7; echo \"?=$?\"")),
-        13 => ("read-file", "read a b <e1; echo \"[$a][$b] ?=$?\"".to_string()),
-        14..=15 => ("pipeline", format!("echo w{k} | relay 3 | cat; echo \"?=$?\"")),
-        16 => ("cmdsubst", "v=$(cat e1; rc 3); echo \"$v ?=$?\"".to_string()),
-        17 => ("subshell-cd", format!("( cd d; echo *; echo w{k} >sub_f{k} ); echo \"?=$?\"; echo d/*")),
-        18 => ("cd", format!("cd d; echo *; cd ..; echo \"?=$?\"")),
-        19 => ("cd-missing", "cd nodir; echo \"?=$?\"".to_string()),
-        20 => (
-            "async-wait",
-            format!("{{ echo w{k} >f3; exit 3; }} & wait $!; echo \"?=$?\"; cat f3"),
-        ),
-        21 => (
-            "trap-self-signal",
-            format!("trap 'echo trapped{k}' USR1; kill -s USR1 $$; echo after{k}; trap - USR1"),
-        ),
-        22 => (
-            "kill-child",
-            format!("{{ nap 200; echo never >nf; }} & p=$!; kill -s TERM $p; wait $p; echo \"?=$?\""),
-        ),
-        23 => ("umask", format!("umask {}; echo w{k} >m{k}; umask 022", rng.pick(&["027", "077", "002"]))),
-        24 => ("dir-as-file", format!("echo w{k} >d; echo \"?=$?\"")),
-        25 => ("missing-input", "cat <missing; echo \"?=$?\"".to_string()),
-        26 => ("here-doc", format!("cat <<EOF\nh{k} $HOME_NOT_SET\nEOF")),
-        27 => ("rw-open", format!("echo w{k} 1<>{}", rng.pick(&["f1", "e1"]))),
-        28 => ("dup", format!("echo w{k} 2>&1 >f2; echo x{k} >&2 2>>f2")),
-        _ => match rng.below(26) {
-            0 => ("creat-in-missing-dir", format!("echo w{k} >nodir/f; echo \"?=$?\"")),
-            1 => ("file-as-dir", format!("echo w{k} >e1/f; echo \"?=$?\"; cat e1/f; echo \"?=$?\"")),
-            2 => ("cd-to-file", "cd e1; echo \"?=$?\"".to_string()),
-            3 => ("read-directory", "cat d; echo \"?=$?\"".to_string()),
-            4 => ("read-directory", "read x <d; echo \"?=$?\"".to_string()),
-            5 => ("wait-unknown", "wait 99999; echo \"?=$?\"; wait; echo \"?=$?\"".to_string()),
-            6 => (
-                "append-shared-offset",
-                format!("exec 3>>f1; echo a{k} >&3; echo b{k} >f1; echo c{k} >&3; exec 3>&-; cat f1"),
-            ),
-            7 => (
-                "truncate-under-open-fd",
-                format!("exec 3>f2; echo aaaa{k} >&3; : >f2; echo b{k} >&3; exec 3>&-; cat f2 | relay 64 | sink 0 0"),
-            ),
-            8 => ("hidden-glob", "echo .*; echo .h*; echo d/.*".to_string()),
-            9 => match rng.below(3) {
-                0 => ("symlink-open", "cat lnk; echo \"?=$?\"".to_string()),
-                1 => ("symlink-dir-prefix", "echo dlnk/*; cat dlnk/a.txt; echo \"?=$?\"".to_string()),
-                _ => ("symlink-open", "cat broken; echo \"?=$?\"".to_string()),
-            },
-            10 => match rng.below(2) {
-                0 => ("symlink-open", format!("echo w{k} >lnk; cat e1")),
-                _ => ("symlink-dir-prefix", "cd dlnk; echo *; cd ..".to_string()),
-            },
-            11 => ("symlink-open", format!("echo w{k} >broken; echo \"?=$?\"; echo *")),
-            12 => (
-                "shared-offset-read",
-                "exec 3<e1; read a <&3; ( read c <&3; echo \"child $c\" ); read b <&3; echo \"[$a][$b] ?=$?\"; exec 3<&-".to_string(),
-            ),
-            13 => ("read-empty-stdin", "read x; echo \"?=$? [$x]\"".to_string()),
-            14 => ("closed-stdout", format!("echo w{k} >&-; echo \"?=$?\"")),
-            15 => ("closed-stdin", "exec 0<&-; read x; echo \"?=$?\"".to_string()),
-            16 => ("ignore-signal", "trap '' TERM; kill -s TERM $$; echo alive; trap - TERM".to_string()),
-            17 => ("pipeline-status", "{ exit 7; } | { exit 9; }; echo \"?=$?\"; ! rc 3; echo \"?=$?\"".to_string()),
-            18 => ("pipefail", "set -o pipefail; { exit 7; } | rc 0; echo \"?=$?\"; set +o pipefail".to_string()),
-            19 => ("big-here-doc", {
-                let body: String = (0..400).map(|i| format!("line {i} of the here-document {k}\n")).collect();
-                format!("sink 0 0 <<'EOF'\n{body}EOF")
-            }),
-            20 => ("big-pipe", format!("gen 70000 {k} 4096 0 0 | relay 1000 | sink {k} 0 333")),
-            21 => ("kill-reaped", format!("{{ exit 0; }} & p=$!; wait $p; kill -s TERM $p; echo \"?=$?\"")),
-            22 => ("fifo", format!("{{ echo w{k} >fifo; }} & cat fifo; wait; echo \"?=$?\"")),
-            23 => ("rw-no-truncate", "cat <>e1; echo z 1<>e1; cat e1".to_string()),
-            24 => ("exit-trap", format!("( trap 'echo bye{k}' EXIT; echo in; exit 4 ); echo \"?=$?\"")),
-            _ => ("status", format!("rc {}; echo \"?=$?\"", rng.pick(&[0u8, 1, 7]))),
-        },
-    };
+    let mut v = variants(rng, *w);
+    let i = rng.below(v.len() as u32) as usize;
+    let (feat, line) = v.swap_remove(i);
     if !feats.iter().any(|x| x == feat) {
         feats.push(feat.to_string());
     }
@@ -583,7 +565,7 @@ impl Prop for C19 {
     }
     fn cases(&self, tier: Tier) -> u64 {
         match tier {
-            Tier::Quick => 700,
+            Tier::Quick => 1500,
             Tier::Thorough => 20_000,
         }
     }
